@@ -64,7 +64,7 @@ typedef enum {
 	WDAY_SUN,
 } rrul_key_t;
 
-#line 47 "evrrul-gp.erf"
+#line 46 "evrrul-gp.erf"
 struct rrul_key_cell_s {
 	const char *keystr;
 	rrul_key_t key;
@@ -95,7 +95,20 @@ __evrrul_key_hash (register const char *str, register size_t len)
       34, 34, 34, 34, 34, 34, 34, 34, 34, 34,
       34, 34, 34, 34, 34, 34, 34, 34, 34, 34,
       34, 34, 34, 34, 34, 34, 34, 34, 34, 34,
-      34, 34, 34, 34, 34, 34, 34, 34
+      34, 34, 34, 34, 34, 34, 34, 34, 34, 34,
+      34, 34, 34, 34, 34, 34, 34, 34, 34, 34,
+      34, 34, 34, 34, 34, 34, 34, 34, 34, 34,
+      34, 34, 34, 34, 34, 34, 34, 34, 34, 34,
+      34, 34, 34, 34, 34, 34, 34, 34, 34, 34,
+      34, 34, 34, 34, 34, 34, 34, 34, 34, 34,
+      34, 34, 34, 34, 34, 34, 34, 34, 34, 34,
+      34, 34, 34, 34, 34, 34, 34, 34, 34, 34,
+      34, 34, 34, 34, 34, 34, 34, 34, 34, 34,
+      34, 34, 34, 34, 34, 34, 34, 34, 34, 34,
+      34, 34, 34, 34, 34, 34, 34, 34, 34, 34,
+      34, 34, 34, 34, 34, 34, 34, 34, 34, 34,
+      34, 34, 34, 34, 34, 34, 34, 34, 34, 34,
+      34, 34, 34, 34, 34, 34
     };
   register unsigned int hval = len;
 
@@ -126,39 +139,39 @@ __evrrul_key (register const char *str, register size_t len)
 
   static const struct rrul_key_cell_s wordlist[] =
     {
-#line 57 "evrrul-gp.erf"
-      {"WKST", KEY_WKST},
-#line 63 "evrrul-gp.erf"
-      {"BYDAY", BY_WDAY},
-#line 62 "evrrul-gp.erf"
-      {"BYHOUR", BY_HOUR},
-#line 67 "evrrul-gp.erf"
-      {"BYMONTH", BY_MON},
-#line 61 "evrrul-gp.erf"
-      {"BYMINUTE", BY_MIN},
-#line 53 "evrrul-gp.erf"
-      {"FREQ", KEY_FREQ},
-#line 64 "evrrul-gp.erf"
-      {"BYMONTHDAY", BY_MDAY},
-#line 69 "evrrul-gp.erf"
-      {"BYEASTER", BY_EASTER},
-#line 65 "evrrul-gp.erf"
-      {"BYYEARDAY", BY_YDAY},
-#line 58 "evrrul-gp.erf"
-      {"SCALE", KEY_SCALE},
-#line 66 "evrrul-gp.erf"
-      {"BYWEEKNO", BY_WEEK},
-#line 55 "evrrul-gp.erf"
-      {"COUNT", KEY_COUNT},
-#line 68 "evrrul-gp.erf"
-      {"BYSETPOS", BY_POS},
-#line 54 "evrrul-gp.erf"
-      {"UNTIL", KEY_UNTIL},
 #line 56 "evrrul-gp.erf"
-      {"INTERVAL", KEY_INTER},
-#line 59 "evrrul-gp.erf"
-      {"SHIFT", KEY_SHIFT},
+      {"WKST", KEY_WKST},
+#line 62 "evrrul-gp.erf"
+      {"BYDAY", BY_WDAY},
+#line 61 "evrrul-gp.erf"
+      {"BYHOUR", BY_HOUR},
+#line 66 "evrrul-gp.erf"
+      {"BYMONTH", BY_MON},
 #line 60 "evrrul-gp.erf"
+      {"BYMINUTE", BY_MIN},
+#line 52 "evrrul-gp.erf"
+      {"FREQ", KEY_FREQ},
+#line 63 "evrrul-gp.erf"
+      {"BYMONTHDAY", BY_MDAY},
+#line 68 "evrrul-gp.erf"
+      {"BYEASTER", BY_EASTER},
+#line 64 "evrrul-gp.erf"
+      {"BYYEARDAY", BY_YDAY},
+#line 57 "evrrul-gp.erf"
+      {"SCALE", KEY_SCALE},
+#line 65 "evrrul-gp.erf"
+      {"BYWEEKNO", BY_WEEK},
+#line 54 "evrrul-gp.erf"
+      {"COUNT", KEY_COUNT},
+#line 67 "evrrul-gp.erf"
+      {"BYSETPOS", BY_POS},
+#line 53 "evrrul-gp.erf"
+      {"UNTIL", KEY_UNTIL},
+#line 55 "evrrul-gp.erf"
+      {"INTERVAL", KEY_INTER},
+#line 58 "evrrul-gp.erf"
+      {"SHIFT", KEY_SHIFT},
+#line 59 "evrrul-gp.erf"
       {"BYSECOND", BY_SEC}
     };
 
